@@ -238,9 +238,26 @@ def check_method(run, pkg, K, m, attrs, ex):
     # routing decided for each type id
     ptype_i = ("sub", ("attr", snap, "particle_type"), i)
     if K > 1:
+        # the species tested must be that of particle i in the frame being processed
+        subjects = set()
+        for lst in accs.values():
+            for e, guards in lst:
+                for g, _ in guards:
+                    for x in walk(g):
+                        if x[0] == "cmp" and x[1] in ("==", "!=") and is_const(x[3]) and isinstance(x[3][1], int):
+                            subjects.add(x[2])
+        foreign = set()
+        for sj in subjects:
+            sx = ex(sj)
+            if sx != ptype_i and sx[0] == "sub" and sx[2] == i and sx[1][0] == "attr" and sx[1][2] == "particle_type":
+                foreign.add(sj)
+        run.ob("R-ROUTE", fq, "type-source", not foreign, "the species of particle i is read from the frame being processed",
+               ", ".join(show(ex(x))[:70] for x in foreign) if foreign else show(ptype_i)[:60],
+               witness=None if not foreign else "two frames in which particles 0 and 1 exchange species at fixed composition: frame 1's densities rho_a are "
+               "summed over the wrong particles (total S(q) unchanged, every partial column wrong)", loc=loc)
         for t in range(1, K + 1):
             def leaf(c, t=t):
-                if c[0] == "cmp" and c[1] in ("==", "!=") and c[2] == ptype_i and is_const(c[3]):
+                if c[0] == "cmp" and c[1] in ("==", "!=") and (c[2] == ptype_i or c[2] in foreign) and is_const(c[3]):
                     return (t == c[3][1]) if c[1] == "==" else (t != c[3][1])
                 return None
             got = []
